@@ -20,28 +20,28 @@ arbitrary `k`), EVERY row length, frame sequence, `max_total_output` setting and
   (`flushHigh ≤` what the inflater wanted there: output it can still produce after its last input byte — a
   property of the inflater, for `fdeflate` a few KiB, measured by the harness);
 * every `to_be_discarded` vector `≤ max(W, F)`;
-* `scratch_buffer.len()` = the output line of the frame in which it was last resized, and — as long as no
-  frame start was refused by `Limits` — it and the current output line are covered by the bytes charged:
-  `≤ L − limit ≤ L`.
+* `scratch_buffer.len()` = the output line of a frame that was started and paid for, and it and the current
+  output line are covered by the bytes charged: `≤ L − limit ≤ L`.
 
 WHAT IS CHARGED TO `Limits` AND WHAT IS NOT.  The Reader charges exactly one thing: `output_line_size(subframe
-width)` bytes, once per started (sub)frame (`reserve_bytes`, mod.rs:368-369), never refunded; that is the
-length `scratch_buffer` is resized to (mod.rs:496).  NOT charged: `out_buffer` (≤ W), the unfiltering buffer
+width)` bytes, once per started (sub)frame (`reserve_bytes`, mod.rs:366-367), never refunded; that is the
+length `scratch_buffer` is resized to (mod.rs:505).  NOT charged: `out_buffer` (≤ W), the unfiltering buffer
 (≤ 2·rowlen − 2 + max(W,F); `rowlen − 1 ≤ 2·output line`, equality for 16-bit input under `STRIP_16`), the discard
 vectors, `Vec` capacity slack (`vecGrow_bounded`: capacity ≤ 2 × the largest length, std's amortised growth).
-Hence (`C06_reader_heap_partial`) the Reader-side heap is `≤ (2a+1)·L + W + 2·max(W,F)` with `a = 1`
+Hence (`C06_reader_heap`) the Reader-side heap is `≤ (2a+1)·L + W + 2·max(W,F)` with `a = 1`
 (no `STRIP_16` of 16-bit data: `3·L + …`) or `a = 2` (always: `5·L + …`), independent of the image height, of
-declared chunk lengths and of the decompressed size of the stream.
+declared chunk lengths and of the decompressed size of the stream — a FULL theorem since the repair below.
 
-DEFECT (full statement false, `C06_reader_heap_counterexample`).  `Reader::read_until_image_data` installs the
-new `SubframeInfo` BEFORE `reserve_bytes` (mod.rs:363-369).  When `next_frame_info`/`next_frame` returns
-`Err(LimitsExceeded)` for a later frame the Reader stays usable, and the next `next_row`/`next_frame` decodes
-that frame anyway: scratch row and unfiltering buffer sized by the refused frame, nothing charged.  Reproduced
-on the crate (APNG, frame 0 = 1×1, frame 1 = 4096×2 RGBA8, `Limits{bytes: 10000}`: `next_frame_info` →
-`LimitsExceeded`, then `next_row` → `Ok`, `scratch_buffer.capacity() = 16384`).  The `_partial` theorem has the
-explicit hypothesis `st.unpaid = false` (no frame start of the run was refused).  What still holds then:
-`reader_scratch_le_line` (the scratch row is at most the longest output line of the frames started, i.e. bounded by
-the canvas the file declares) and all of `C06_reader_buffers_bounded` except item 4.
+THE PINNED TREE VIOLATED THIS (repaired by 0a2b38f).  The old `Reader::read_until_image_data` installed the new
+`SubframeInfo` BEFORE `reserve_bytes`.  When `next_frame_info`/`next_frame` returned `Err(LimitsExceeded)` for a
+later frame the Reader stayed usable, and the next `next_row`/`next_frame` decoded that frame anyway: scratch row
+and unfiltering buffer sized by the refused frame, nothing charged (APNG, frame 0 = 1×1, frame 1 = 4096×2 RGBA8,
+`Limits{bytes: 10000}`: `next_frame_info` → `LimitsExceeded`, then `next_row` → `Ok`, `scratch_buffer.capacity()
+= 16384`).  The repaired code reserves FIRST and installs the frame only on success; on refusal the old, paid-for
+subframe is kept with no rows and no frames left.  `DP.step` models the repaired code; `DP.stepPinned` keeps the old
+behaviour (they differ only in a refused frame start: `DP.stepPinned_eq`), and
+`C06_reader_heap_pinned_counterexample` is the decided run on which the pinned tree broke the bound.  The harness class
+`scratch-row-after-refused-frame` fires again if the defect returns.
 
 TIES TO THE `Reader` MODEL (`Model/Reader.lean`, transformation `Driver.realT`): `reader_frame_real` (the frame
 `⟨Sub.new(i).rowlen, outLineSize …, bpp⟩` the model installs and charges satisfies `2 ≤ rowlen ≤ 2·outLine + 1`, and
@@ -50,7 +50,7 @@ frame's row) discharge the model's frame assumptions.  Assumed, not modelled her
 change while it is current (`realT_stable`: it depends on IHDR and `tRNS` only, and `tRNS` after `IDAT` is refused);
 the fixed-size pieces (`fdeflate::Decompressor` box, the boxed `transform_fn` with its 1 KiB palette memo).
 Other results: `reader_datapath_panics` (the only reachable panic is zlib.rs:141's progress `assert!`),
-`reader_flush_bounded`, `vec_capacity_bounded`.
+`reader_flush_bounded`, `reader_scratch_le_line`, `reader_limit_hit_keeps_frame`, `vec_capacity_bounded`.
 -/
 namespace Png.C06
 open Png
@@ -70,18 +70,18 @@ theorem W_eq_window : ZCfg.current.window = W := rfl
     1. `data_stream.len() + 2 ≤ 2·rowlen + max(W, flushHigh)`;
     2. `out_buffer.len() ≤ zHigh ≤ W`;
     3. every discard vector so far `≤ max(W, flushHigh)`;
-    4. `limit ≤ L`, and if no frame start was refused (`unpaid = false`) the scratch row and the current
-       frame's output line are `≤ L − limit` (covered by what was charged). -/
+    4. `limit ≤ L`, and the scratch row and the current frame's output line are `≤ L − limit` (covered by what
+       was charged: a frame whose charge `Limits` refuses is never installed). -/
 theorem C06_reader_buffers_bounded (L : Nat) (fr : DPFrame) (O : Bytes) (ops : List DPOp) (st0 st : DP)
     (h0 : DP.start L fr O = some st0) (hr : DP.run ZCfg.current ops st0 = .ok st) :
     st.ub.data.length + 2 ≤ 2 * st.frame.rowlen + max W st.flushHigh ∧
     st.z.bufLen ≤ st.zHigh ∧ st.zHigh ≤ W ∧
     st.tmpHigh ≤ max W st.flushHigh ∧
     st.limit ≤ L ∧
-    (st.unpaid = false → st.scratchLen ≤ L - st.limit ∧ st.frame.outLine ≤ L - st.limit) := by
+    st.scratchLen ≤ L - st.limit ∧ st.frame.outLine ≤ L - st.limit := by
   have hi := DP.run_inv ZCfg.current ZCfg.current_ok L ops st0 st
     (DP.start_inv ZCfg.current L fr O st0 h0).1 hr
-  exact ⟨hi.ublen, hi.zcur, hi.zhigh, hi.tmp, hi.lim, hi.paid⟩
+  exact ⟨hi.ublen, hi.zcur, hi.zhigh, hi.tmp, hi.lim, hi.paid.1, hi.paid.2⟩
 
 /-- the index invariants of `UnfilteringBuffer` (`debug_assert_invariants`) and the shape the bound rests
     on: the previous row is absent or one pass row long, and the pass row is at most the frame's row -/
@@ -137,31 +137,20 @@ theorem reader_datapath_no_panic (L : Nat) (fr : DPFrame) (O : Bytes) (ops : Lis
 /-- the Reader-side heap of a state: the three persistent buffers plus the largest discard vector -/
 def readerHeap (st : DP) : Nat := st.ub.data.length + st.z.bufLen + st.scratchLen + st.tmpHigh
 
-/-- the full statement one would like: the heap is within `(2a+1)·L + W + 2·max(W,F)` on every run whose
-    frames have `rowlen ≤ a·outLine + 1` and whose flushes want at most `F` bytes -/
-def C06_reader_heap_statement : Prop :=
-  ∀ (a L F : Nat) (fr : DPFrame) (O : Bytes) (ops : List DPOp) (st0 st : DP),
-    DP.start L fr O = some st0 → DP.run ZCfg.current ops st0 = .ok st →
-    fr.rowlen ≤ a * fr.outLine + 1 → (∀ f, DPOp.newFrame f ∈ ops → f.rowlen ≤ a * f.outLine + 1) →
-    (∀ op ∈ ops, op.flushWant ≤ F) →
-    readerHeap st ≤ 2 * (a * L) + L + W + 2 * max W F
-
-/-- **C06, Reader side, in terms of the configured limit** (partial: no frame start of the run was refused
-    by `Limits`, `st.unpaid = false`).  `a` relates the raw row to the charged output line
-    (`rowlen ≤ a·outLine + 1`: `a = 1` unless 16-bit samples are stripped to 8, `a = 2` always).  Then
+/-- **C06, Reader side, in terms of the configured limit.**  `a` relates the raw row to the charged output
+    line (`rowlen ≤ a·outLine + 1`: `a = 1` unless 16-bit samples are stripped to 8, `a = 2` always:
+    `reader_frame_real`).  Then on EVERY run
     `data_stream + out_buffer + scratch_buffer + largest discard vector ≤ (2a+1)·(L − limit) + W + 2·max(W,F)`:
     a fixed linear function of the budget actually spent, hence of `L`; no term depends on the image height,
     on declared chunk lengths or on how much the stream decompresses to. -/
-theorem C06_reader_heap_partial (a L F : Nat) (fr : DPFrame) (O : Bytes) (ops : List DPOp) (st0 st : DP)
+theorem C06_reader_heap (a L F : Nat) (fr : DPFrame) (O : Bytes) (ops : List DPOp) (st0 st : DP)
     (h0 : DP.start L fr O = some st0) (hr : DP.run ZCfg.current ops st0 = .ok st)
     (ha0 : fr.rowlen ≤ a * fr.outLine + 1)
     (ha : ∀ f, DPOp.newFrame f ∈ ops → f.rowlen ≤ a * f.outLine + 1)
-    (hF : ∀ op ∈ ops, op.flushWant ≤ F)
-    (hpaid : st.unpaid = false) :
+    (hF : ∀ op ∈ ops, op.flushWant ≤ F) :
     readerHeap st ≤ 2 * (a * (L - st.limit)) + (L - st.limit) + W + 2 * max W F ∧
     readerHeap st ≤ 2 * (a * L) + L + W + 2 * max W F := by
-  obtain ⟨h1, h2, h3, h4, h5, h6⟩ := C06_reader_buffers_bounded L fr O ops st0 st h0 hr
-  obtain ⟨h7, h8⟩ := h6 hpaid
+  obtain ⟨h1, h2, h3, h4, h5, h7, h8⟩ := C06_reader_buffers_bounded L fr O ops st0 st h0 hr
   have hfl := reader_flush_bounded L F fr O ops st0 st h0 hr hF
   have hfr : st.frame.rowlen ≤ a * st.frame.outLine + 1 := by
     refine DP.run_frame ZCfg.current (fun f => f.rowlen ≤ a * f.outLine + 1) ops st0 st hr ?_ ha
@@ -174,28 +163,28 @@ theorem C06_reader_heap_partial (a L F : Nat) (fr : DPFrame) (O : Bytes) (ops : 
 
 /-- the two instances: `3·L + c` when raw rows are no longer than the output line plus the filter byte,
     `5·L + c` in general (`c = W + 2·max(W,F)`, `= 983 040` when `F ≤ W`) -/
-theorem C06_reader_heap_3L_partial (L F : Nat) (fr : DPFrame) (O : Bytes) (ops : List DPOp) (st0 st : DP)
+theorem C06_reader_heap_3L (L F : Nat) (fr : DPFrame) (O : Bytes) (ops : List DPOp) (st0 st : DP)
     (h0 : DP.start L fr O = some st0) (hr : DP.run ZCfg.current ops st0 = .ok st)
     (ha0 : fr.rowlen ≤ fr.outLine + 1) (ha : ∀ f, DPOp.newFrame f ∈ ops → f.rowlen ≤ f.outLine + 1)
-    (hF : ∀ op ∈ ops, op.flushWant ≤ F) (hpaid : st.unpaid = false) :
+    (hF : ∀ op ∈ ops, op.flushWant ≤ F) :
     readerHeap st ≤ 3 * L + (W + 2 * max W F) := by
-  have := (C06_reader_heap_partial 1 L F fr O ops st0 st h0 hr (by omega)
-    (fun f hf => by have := ha f hf; omega) hF hpaid).2
+  have := (C06_reader_heap 1 L F fr O ops st0 st h0 hr (by omega)
+    (fun f hf => by have := ha f hf; omega) hF).2
   omega
 
-theorem C06_reader_heap_5L_partial (L F : Nat) (fr : DPFrame) (O : Bytes) (ops : List DPOp) (st0 st : DP)
+theorem C06_reader_heap_5L (L F : Nat) (fr : DPFrame) (O : Bytes) (ops : List DPOp) (st0 st : DP)
     (h0 : DP.start L fr O = some st0) (hr : DP.run ZCfg.current ops st0 = .ok st)
     (ha0 : fr.rowlen ≤ 2 * fr.outLine + 1) (ha : ∀ f, DPOp.newFrame f ∈ ops → f.rowlen ≤ 2 * f.outLine + 1)
-    (hF : ∀ op ∈ ops, op.flushWant ≤ F) (hpaid : st.unpaid = false) :
+    (hF : ∀ op ∈ ops, op.flushWant ≤ F) :
     readerHeap st ≤ 5 * L + (W + 2 * max W F) := by
-  have := (C06_reader_heap_partial 2 L F fr O ops st0 st h0 hr ha0 ha hF hpaid).2
+  have := (C06_reader_heap 2 L F fr O ops st0 st h0 hr ha0 ha hF).2
   omega
 
 /-- **the frame assumptions hold for what the `Reader` model computes with the actual transformation**
     (`Model/Reader.lean`: `Sub.new` and the amount `readUntilImageData` charges; `Driver.realT`).  For an `Info`
     that passed the IHDR validation (`InfoLegal`) and a (sub)frame at least one pixel wide, the frame
     `⟨subframe.rowlen, output_line_size(subframe.width), bpp⟩` has `2 ≤ rowlen ≤ 2·outLine + 1` (the hypothesis
-    `a = 2` of `C06_reader_heap_partial`), `rowlen ≤ outLine + 1` unless 16-bit samples are stripped (`a = 1`), and
+    `a = 2` of `C06_reader_heap`), `rowlen ≤ outLine + 1` unless 16-bit samples are stripped (`a = 1`), and
     every pass `1 ≤ w' ≤ width` has `2 ≤ r ≤ rowlen` (what `newPass` requires). -/
 theorem reader_frame_real (i : Framing.Info) (f : Reader.Flags) (bpp : Nat) (hl : Framing.InfoLegal i)
     (hw : 1 ≤ (Reader.Sub.dims i).1) :
@@ -219,21 +208,48 @@ example : rawRowLengthFromWidth 6 16 10 = 81 ∧
     Reader.outLineSize Driver.realT { width := 10, height := 1, depth := 16, color := 6, interlaced := false }
       { strip16 := true } 10 = 40 := by decide
 
-/-- the run behind the defect: budget 4; frame 0 has a 4-byte line (paid); its data sequence ends; the next
-    frame start asks for 10 000 000 bytes, is refused (`unpaid`), stays installed; `next_row` resizes the
-    scratch row to it -/
+/-- a refused frame start: budget 4; frame 0 has a 4-byte line (paid); its data sequence ends; the next frame
+    start asks for 10 000 000 bytes and is refused; a row call follows -/
 def refusedFrameRun : List DPOp :=
   [.pullFlush .idle [], .newFrame ⟨10000001, 10000000, 4⟩, .scratch]
 
-/-- **Counterexample: the full statement is false.**  After a refused frame start the scratch row is sized
-    by the refused frame. -/
-theorem C06_reader_heap_counterexample : ¬ C06_reader_heap_statement := by
+/-- **a refused frame start installs nothing** (repaired code): the old frame stays current, the scratch row is
+    sized by it, no further frame can be started, nothing but the flags changes -/
+theorem reader_limit_hit_keeps_frame (st : DP) (fr : DPFrame)
+    (hg : st.flushed = true ∧ st.noFrames = false ∧ 2 ≤ fr.rowlen) (hl : st.limit < fr.outLine) :
+    st.step ZCfg.current (.newFrame fr) = .ok { st with flushed := true, noFrames := true, limitHit := true } ∧
+    ∀ fr', ({ st with flushed := true, noFrames := true, limitHit := true } : DP).step ZCfg.current (.newFrame fr')
+      = .refused := by
+  obtain ⟨h1, h2, h3⟩ := hg
+  constructor
+  · simp only [DP.step, h1, h2]
+    rw [if_neg (by simp; omega), if_neg (by omega)]
+  · intro fr'
+    simp [DP.step]
+
+/-- on the repaired tree the run ends with the scratch row sized by the paid 4-byte line -/
+example : DP.runFrom ZCfg.current 4 ⟨5, 4, 4⟩ [] refusedFrameRun = some (.ok
+    { ubLen := 0, prevStart := 0, curStart := 0, bufLen := 0, outPos := 0, readPos := 0,
+      scratchLen := 4, limit := 0, flushed := true, limitHit := true,
+      zHigh := 0, tmpHigh := 0, flushHigh := 0 }) := by decide
+
+/-- the heap statement over the PINNED tree's step (`DP.runPinned`: the frame is installed before the charge) -/
+def C06_reader_heap_statement_pinned : Prop :=
+  ∀ (a L F : Nat) (fr : DPFrame) (O : Bytes) (ops : List DPOp) (st0 st : DP),
+    DP.start L fr O = some st0 → DP.runPinned ZCfg.current ops st0 = .ok st →
+    fr.rowlen ≤ a * fr.outLine + 1 → (∀ f, DPOp.newFrame f ∈ ops → f.rowlen ≤ a * f.outLine + 1) →
+    (∀ op ∈ ops, op.flushWant ≤ F) →
+    readerHeap st ≤ 2 * (a * L) + L + W + 2 * max W F
+
+/-- **The pinned tree violated this (repaired by 0a2b38f).**  On the old code a refused frame start stayed
+    installed and the next row call sized the scratch row by it: 10 000 000 bytes under a budget of 4. -/
+theorem C06_reader_heap_pinned_counterexample : ¬ C06_reader_heap_statement_pinned := by
   intro h
-  have hobs : DP.runFrom ZCfg.current 4 ⟨5, 4, 4⟩ [] refusedFrameRun = some (.ok
+  have hobs : DP.runFromPinned ZCfg.current 4 ⟨5, 4, 4⟩ [] refusedFrameRun = some (.ok
       { ubLen := 0, prevStart := 0, curStart := 0, bufLen := 0, outPos := 0, readPos := 0,
-        scratchLen := 10000000, limit := 0, flushed := false, unpaid := true,
+        scratchLen := 10000000, limit := 0, flushed := false, limitHit := true,
         zHigh := 0, tmpHigh := 0, flushHigh := 0 }) := by decide
-  obtain ⟨st0, st, hs, hr, hsz⟩ := DP.runFrom_ok _ _ _ _ _ _ hobs
+  obtain ⟨st0, st, hs, hr, hsz⟩ := DP.runFromPinned_ok _ _ _ _ _ _ hobs
   have hsc : st.scratchLen = 10000000 := congrArg DPSizes.scratchLen hsz
   have := h 1 4 0 ⟨5, 4, 4⟩ [] refusedFrameRun st0 st hs hr (by decide)
     (by intro f hf
@@ -245,9 +261,8 @@ theorem C06_reader_heap_counterexample : ¬ C06_reader_heap_statement := by
   unfold readerHeap at this
   omega
 
-/-- **what remains true after a refused frame start**: paid or not, the scratch row is never longer than the
-    longest output line among the frames the run started (for an APNG: at most the canvas line, since `fcTL`
-    regions lie inside the canvas) — bounded by what the file claims, not by `Limits` -/
+/-- independently of the ledger: the scratch row is never longer than the longest output line among the frames
+    the run tried to start (for an APNG: at most the canvas line, since `fcTL` regions lie inside the canvas) -/
 theorem reader_scratch_le_line (B L : Nat) (fr : DPFrame) (O : Bytes) (ops : List DPOp) (st0 st : DP)
     (h0 : DP.start L fr O = some st0) (hr : DP.run ZCfg.current ops st0 = .ok st)
     (hB0 : fr.outLine ≤ B) (hB : ∀ f, DPOp.newFrame f ∈ ops → f.outLine ≤ B) :
@@ -278,17 +293,17 @@ def demoOps : List DPOp :=
 
 example : DP.runFrom ZCfg.current 100 ⟨5, 4, 4⟩ [1, 1, 2, 3, 4, 2, 1, 1, 1, 1] demoOps = some (.ok
     { ubLen := 0, prevStart := 0, curStart := 0, bufLen := 0, outPos := 0, readPos := 0,
-      scratchLen := 2, limit := 94, flushed := true, unpaid := false,
+      scratchLen := 2, limit := 94, flushed := true, limitHit := false,
       zHigh := 65536, tmpHigh := 2, flushHigh := 0 }) := by decide
 
 /-- the state in the middle of the first frame (`max_total_output = 10` caps `out_buffer`): the first row is
     unfiltered, compaction dropped its filter byte, the second row is complete -/
 example : DP.runFrom ZCfg.current 100 ⟨5, 4, 4⟩ [1, 1, 2, 3, 4, 2, 1, 1, 1, 1] (demoOps.take 7) = some (.ok
     { ubLen := 9, prevStart := 0, curStart := 4, bufLen := 10, outPos := 10, readPos := 10,
-      scratchLen := 4, limit := 96, flushed := false, unpaid := false,
+      scratchLen := 4, limit := 96, flushed := false, limitHit := false,
       zHigh := 10, tmpHigh := 0, flushHigh := 0 }) := by decide
 
-/-- the hypotheses of `C06_reader_heap_partial` hold on it (`a = 1`, `F = 0`) -/
+/-- the hypotheses of `C06_reader_heap` hold on it (`a = 1`, `F = 0`) -/
 example : (5 ≤ 1 * 4 + 1) ∧ (∀ f, DPOp.newFrame f ∈ demoOps → f.rowlen ≤ 1 * f.outLine + 1) ∧
     (∀ op ∈ demoOps, op.flushWant ≤ 0) := by
   refine ⟨by decide, ?_, ?_⟩
@@ -314,11 +329,11 @@ example : DP.runFrom ZCfg.current 100 ⟨5, 4, 4⟩ [1, 1, 2] [.pull 3, .pullFlu
 example : (⟨4, 2, 3⟩ : ZCfg).Ok ∧ (⟨4, 2, 3⟩ : ZCfg).window = 22 ∧
     DP.runFrom ⟨4, 2, 3⟩ 100 ⟨2, 1, 1⟩ (List.replicate 60 0) [.pull 1, .pullFlush (.loop [8, 8, 8, 8, 8, 8] 8) []] = some (.ok
       { ubLen := 52, prevStart := 0, curStart := 0, bufLen := 0, outPos := 0, readPos := 0,
-        scratchLen := 0, limit := 99, flushed := true, unpaid := false,
+        scratchLen := 0, limit := 99, flushed := true, limitHit := false,
         zHigh := 12, tmpHigh := 0, flushHigh := 51 }) :=
   ⟨⟨by decide, by decide, by decide⟩, by decide, by decide⟩
 
-/-- an unpaid first frame means there is no `Reader` -/
+/-- a first frame the budget does not cover: `read_info` fails, there is no `Reader` -/
 example : DP.start 3 ⟨5, 4, 4⟩ [] = none := by decide
 
 example : vecGrow 0 5 = 8 ∧ vecGrow 8 9 = 16 ∧ vecGrow 16 100 = 100 ∧ vecGrow 100 60 = 100 := by decide
